@@ -3,7 +3,7 @@
 # every own mutant) is applied to a scratch worktree of /repo under /tmp/mx, a copy of the harness
 # is built against that worktree, and the change's own property check (quick) is run.
 # Output: /verif/seeded/OWN_MATRIX.txt.  Removes its scratch directory when done.
-# usage: own_matrix.sh [shard nshards]   (shards write /tmp/OWN_MATRIX.<shard>.txt; concatenate them)
+# usage: [SEEDS_DIR=<dir of seed dirs>] own_matrix.sh [shard nshards]   (shards write /tmp/OWN_MATRIX.<shard>.txt; concatenate them)
 set -u
 SHARD=${1:-0}; NSHARDS=${2:-1}
 MX=/tmp/mx$SHARD
@@ -28,7 +28,7 @@ run_one() { # <patch> <name> <prop>
   echo "$2: $3 exit=$rc violations=$k $(grep -m1 violation-detail $MX/out.txt | cut -c1-140)" >> $OUT
 }
 i=0
-for d in /verif/seeded/*/; do
+for d in ${SEEDS_DIR:-/verif/seeded}/*/; do
   i=$((i+1)); [ $((i % NSHARDS)) -eq $SHARD ] || continue
   [ -f $d/patch.diff ] || continue
   n=$(basename $d); p=${n%%-*}
